@@ -81,7 +81,7 @@ impl Monitor for C08 {
         "C08"
     }
     fn rule(&self) -> String {
-        "even cases (direct): one supply (Dedicated / Periodic / Constrained, each also wrapped so that the trait's default service_time runs), one monotone staircase workload (sum of cost*ceil((r+jitter)/period) terms plus a constant; including zero, constant and diverging ones), offsets in [0, service_time(w(1))], limits around the least solution (sol-1, sol, sol+1, large); search_with_offset and search are compared with a linear scan for the least r >= 0 with provided_service(offset+r) >= w(max(r,1)); max_response_time is run on random Ok/Err sequences. Odd cases (in situ): a random FP/EDF/FIFO analysis problem is analysed with hook H1 installed; for EVERY search the library performs, the result is checked for leastness / true divergence against the analysis' own workload closure, and the item sequence seen by max_response_time (hook H2) is matched with the analysis' return value. Non-trivial = the search needed >= 2 iterations (least solution > w-independent first guess), or diverged, or limit == least solution; distinct = distinct (supply, workload, offset, limit) resp. distinct analysis problem.".to_string()
+        "cases = 0 mod 3 (direct): one supply (Dedicated / Periodic / Constrained, each also wrapped so that the trait's default service_time runs), one monotone staircase workload (sum of cost*ceil((r+jitter)/period) terms plus a constant; including zero, constant and diverging ones), offsets in [0, service_time(w(1))], limits around the least solution (sol-1, sol, sol+1, large); search_with_offset and search are compared with a linear scan for the least r >= 0 with provided_service(offset+r) >= w(max(r,1)); max_response_time is run on random Ok/Err sequences. Other cases (in situ): a random FP/EDF/FIFO (1 mod 3) or ROS 2 (2 mod 3; offsets > 0, reservation supplies) analysis problem is analysed with hook H1 installed; for EVERY search the library performs, the result is checked for leastness / true divergence against the analysis' own workload closure, and the item sequence seen by max_response_time (hook H2) is matched with the analysis' return value. Non-trivial = the search needed >= 2 iterations (least solution > w-independent first guess), or diverged, or limit == least solution; distinct = distinct (supply, workload, offset, limit) resp. distinct analysis problem.".to_string()
     }
     fn assumptions(&self) -> Vec<String> {
         vec![
@@ -92,8 +92,8 @@ impl Monitor for C08 {
     }
     fn cases(&self, tier: Tier) -> u64 {
         match tier {
-            Tier::Quick => 40_000,
-            Tier::Thorough => 1_500_000,
+            Tier::Quick => 300_000,
+            Tier::Thorough => 5_000_000,
         }
     }
     fn required_counters(&self) -> Vec<&'static str> {
@@ -102,10 +102,10 @@ impl Monitor for C08 {
 
     fn run_case(&self, index: u64, seed: u64, tier: Tier, rep: &mut CaseReport) {
         let mut rng = Rng::new(seed);
-        if index % 2 == 0 {
-            direct(&mut rng, rep);
-        } else {
-            in_situ_uni(&mut rng, tier, rep);
+        match index % 3 {
+            0 => direct(&mut rng, rep),
+            1 => in_situ_uni(&mut rng, tier, rep),
+            _ => in_situ_ros(&mut rng, index, rep),
         }
     }
 }
@@ -371,6 +371,27 @@ fn in_situ_uni(rng: &mut Rng, tier: Tier, rep: &mut CaseReport) {
     let res = got.ok();
     // FIFO does not go through max_response_time; NP/LP results add the remaining cost per item already
     report_in_situ(rep, &rec, &p.name(), p.to_json(), res.as_ref(), p.policy != Policy::FIFO);
+    if rec.multi_iteration > 0 || rec.errs > 0 {
+        rep.nontrivial_key(&p.words());
+    }
+}
+
+/// In-situ monitoring of the ROS 2 analyses: these call `search_with_offset` with offsets > 0 on
+/// reservation supplies (incl. the trait-default `service_time`).
+fn in_situ_ros(rng: &mut Rng, index: u64, rep: &mut CaseReport) {
+    use crate::model::ros;
+    let limit = *rng.pick(&[30u64, 120, 400, 1000]);
+    let p = ros::gen_problem(rng, Some(((index / 3) % 6) as usize), limit);
+    rep.sample = Some(p.to_json());
+    let rec = install_in_situ(rng.next_u64());
+    let got = ros::run_lib(&p);
+    uninstall_in_situ();
+    let rec = rec.borrow();
+    let res = got.ok();
+    // rr::rta_subchain does not go through max_response_time
+    let uses_max = !matches!(p, ros::RosProblem::RR { .. });
+    rep.count("in_situ_searches_checked[ros2]", rec.searches);
+    report_in_situ(rep, &rec, p.name(), p.to_json(), res.as_ref(), uses_max);
     if rec.multi_iteration > 0 || rec.errs > 0 {
         rep.nontrivial_key(&p.words());
     }
